@@ -29,7 +29,9 @@ chk("C04", "exploration", "property-based testing (Hypothesis): generated ball h
     "negative playfield count, no pulse towards a device whose content plus balls rolling to it fill it; at rest (no "
     "ball moving, 75 s virtual quiet): every count equals the physical content, the playfield count equals the loose "
     "balls and all counts sum to num_balls_known. Sub-check 'calm' repeats this with entries into a device held back "
-    "while that device's own eject is unconfirmed. Search over a documented physical envelope, not proof.",
+    "while that device's own eject is unconfirmed; sub-check 'game' runs the same machines with the game mode, a "
+    "generated ball save and a generated multiball and only player/physics operations (start button, drains, lock "
+    "shots, plunges, multiball start/add-a-ball, early save). Search over a documented physical envelope, not proof.",
     "Balls are never created/destroyed, clean switches, >= 400 ms between two balls on one entrance switch, late "
     "arrivals below ball_missing_timeout, entrance-counted devices only eject successfully, no foreign playfield hit "
     "while a failed playfield eject awaits its verdict, counts of a device which reported itself broken are not "
@@ -40,7 +42,9 @@ chk("C05", "exploration", "property-based testing (Hypothesis): generated reques
     "max_eject_attempts failures), no queued request may have a ball physically upstream of it, requested balls must have "
     "been physically delivered or still be queued, every too-weak or fall-back eject must be followed by another pulse "
     "or an eject_failed event, the machine must come to rest within 60 rounds of 75 s virtual quiet and no task may "
-    "crash. 'Eventually' is decided as this bounded liveness under the virtual clock; true liveness is out of reach.",
+    "crash; under a game (sub-check 'game': ball starts, ball saves, multiball adds) a ball counted as in play must be "
+    "physically in play unless no ball is left in the trough/outhole. 'Eventually' is decided as this bounded liveness "
+    "under the virtual clock; true liveness is out of reach.",
     "Same envelope as C04; a mechanical plunger is eventually plunged by the player when MPF waits for it; the history "
     "ends when a device reports itself broken; at most capacity-many request_ball calls per device.",
     "DESIGN.md §4 C04/C05")
